@@ -30,6 +30,29 @@ func (ex *Exec) call(st *State, fr *Frame, x *ssa.Call) bool {
 	switch v := ex.val(fr, cc.Value, st).(type) {
 	case ClosureV:
 		fn, bind = v.Fn, v.Bind
+	case OpaqueV:
+		// a function value the verifier knows nothing about (a callback parameter such as the checker's
+		// `report`): with `option opaquecalls=noop` the call is assumed to return normally, to change nothing the
+		// contract talks about, and to return arbitrary values (listed among the assumptions)
+		if ex.C.Options["opaquecalls"] != "noop" {
+			ex.reject("call of unknown function value %s in %s", valString(v), fr.Fn)
+		}
+		ex.safety(st, "nil-deref", ex.siteName(fr, x, "nil"), Neq(v.Id, IntC(0)))
+		ex.UsedAssumed["opaque function value (callback assumed to return normally without visible effect)"] = true
+		sig, ok := cc.Value.Type().Underlying().(*types.Signature)
+		if !ok {
+			ex.reject("call of opaque non-function value")
+		}
+		var rets []Val
+		for i := 0; i < sig.Results().Len(); i++ {
+			save := ex.Inputs
+			ex.resultMode = true
+			rets = append(rets, ex.symVal(st, fmt.Sprintf("cb%d_%d", i, ex.nfreshNext()), sig.Results().At(i).Type(), 1))
+			ex.resultMode = false
+			ex.Inputs = save
+		}
+		ex.bindResult(fr, x, rets)
+		return false
 	default:
 		ex.reject("call of unknown function value %s in %s", valString(v), fr.Fn)
 	}
@@ -214,14 +237,41 @@ func (ex *Exec) ifaceContract(static types.Type, m *types.Func) (*Contract, stri
 
 // applyContract replaces a call by the callee's contract.
 func (ex *Exec) applyContract(st *State, fr *Frame, x *ssa.Call, c *Contract, key string, names []string, args []Val, results *types.Tuple, pkg *ssa.Package) bool {
+	short := shortFn(key)
+	// ghosts of the callee that its preconditions constrain must be instantiated by the caller (callghost)
+	instGhost := map[string]Val{}
 	for _, g := range c.Ghosts {
+		constrained := false
 		for _, r := range c.Requires {
 			if regexp.MustCompile(`\b` + regexp.QuoteMeta(g[0]) + `\b`).MatchString(r.Src) {
-				ex.reject("contract of %s constrains ghost %s in a precondition and cannot be applied at a call site", key, g[0])
+				constrained = true
 			}
 		}
+		if !constrained {
+			continue
+		}
+		var inst *LetDef
+		if cc := ex.contractFor(fr.Fn); cc != nil {
+			for i := range cc.CallGhosts {
+				nm := cc.CallGhosts[i].Name
+				if nm == short+"."+g[0] || nm == short[strings.LastIndex(short, ".")+1:]+"."+g[0] {
+					inst = &cc.CallGhosts[i]
+				}
+			}
+		}
+		if inst == nil {
+			ex.reject("contract of %s constrains ghost %s in a precondition: the caller must instantiate it (callghost %s.%s = ...)", key, g[0], short, g[0])
+		}
+		genv := &SpecEnv{ex: ex, st: ex.Entry, vars: ex.ParamVals, contract: ex.C}
+		if ex.Fn != nil && ex.Fn.Pkg != nil {
+			genv.pkg = ex.Fn.Pkg.Pkg
+		}
+		gv, _ := genv.eval(inst.Expr)
+		if u, ok := gv.(UConst); ok {
+			gv = Scalar{IntBig(u.V)}
+		}
+		instGhost[g[0]] = gv
 	}
-	short := shortFn(key)
 	ex.siteCnt[short]++
 	site := fmt.Sprintf("%s#%d", short, ex.callOrdinal(fr, x))
 	if fr.Fn != ex.Fn {
@@ -239,6 +289,14 @@ func (ex *Exec) applyContract(st *State, fr *Frame, x *ssa.Call, c *Contract, ke
 	}
 	// ghosts that only occur in postconditions are universally quantified there: any fresh value is a sound instance
 	for _, g := range c.Ghosts {
+		if iv, ok := instGhost[g[0]]; ok {
+			vars[g[0]] = iv
+			continue
+		}
+		if g[1] == "mathint" {
+			vars[g[0]] = Scalar{ex.fresh("gh_"+g[0], IntSort)}
+			continue
+		}
 		if gt := basicTypeByName(g[1]); gt != nil {
 			save := ex.Inputs
 			ex.resultMode = true
